@@ -11,7 +11,7 @@ from netqasm.lang.parsing.binary import deserialize
 from netqasm.lang.parsing.text import parse_text_subroutine
 from netqasm.lang.subroutine import Subroutine
 
-PATHS = ("direct", "text", "text+nv-transpiler", "setter", "instantiate", "template", "sdk", "sdk-array-index")
+PATHS = ("direct", "text", "text+nv-transpiler", "setter", "instantiate", "template", "template-numpy-integer", "sdk", "sdk-array-index", "sdk-until-bound")
 CLASSICAL = ("jmp", "bez", "bnz", "beq", "bne", "blt", "bge", "set", "add", "sub", "addm", "subm", "store", "load", "lea", "undef", "array", "ret_reg", "ret_arr")
 ASSUME = [
     "one out-of-range operand per vector, the others at in-range base values",
@@ -51,7 +51,7 @@ def attempt(path: str, v, cls, val):
         ops[v["pos"] - 1] = (ops[v["pos"] - 1] // 16, val)
     else:
         ops[v["pos"] - 1] = val
-    if path in ("setter", "instantiate", "template", "sdk", "sdk-array-index"):
+    if path in ("setter", "instantiate", "template", "template-numpy-integer", "sdk", "sdk-array-index", "sdk-until-bound"):
         return attempt_other(path, v, cls, val, ops)
     try:
         instr = isa.build(cls, v["shape"], ops)
@@ -78,9 +78,9 @@ def applicable(path: str, v) -> bool:
         return v["fl"] == "vanilla" and v["mn"] in CLASSICAL
     if path in ("setter", "instantiate"):
         return v["kind"] == "app"
-    if path == "template":
+    if path in ("template", "template-numpy-integer"):
         return v["kind"] == "imm" and v["shape"] == "RegImmImm"
-    if path == "sdk-array-index":
+    if path in ("sdk-array-index", "sdk-until-bound"):
         return v["fl"] == "vanilla" and v["kind"] == "int" and v["mn"] == "set"
     if path == "sdk":
         return (v["kind"] == "app") or (v["fl"] == "vanilla" and ((v["kind"] == "imm" and v["mn"] in ("rot_x", "rot_y", "rot_z")) or (v["kind"] == "int" and v["mn"] == "set")))
@@ -99,7 +99,13 @@ def attempt_other(path, v, cls, val, ops):
             sub = Subroutine(instructions=[isa.build(cls, v["shape"], ops)], app_id=0, netqasm_version=(0, 0))
             sub.instantiate(app_id=val, arguments={})
             b = bytes(sub)
-        elif path == "template":
+        elif path in ("template", "template-numpy-integer"):
+            if path == "template-numpy-integer":
+                # the value comes out of a numpy computation (an integer type that is not `int`)
+                import numpy as np
+                if not -2**63 <= val < 2**63:
+                    return "reject", "beyond numpy's widest integer"
+                val = np.int64(val)
             base = list(ops)
             base[v["pos"] - 1] = 1
             instr = isa.build(cls, v["shape"], base)
@@ -124,6 +130,13 @@ def attempt_other(path, v, cls, val, ops):
                     q = Qubit(conn)
                     n, d = (val, 2) if v["pos"] == 2 else (1, val)
                     getattr(q, {"rot_x": "rot_X", "rot_y": "rot_Y", "rot_z": "rot_Z"}[v["mn"]])(n=n, d=d)
+                elif path == "sdk-until-bound":
+                    # the value as the bound of a repeat-until exit condition ("at most val")
+                    from netqasm.sdk.constraint import ValueAtMostConstraint
+                    with conn.loop_until(2) as loop:
+                        q = Qubit(conn)
+                        m_ = q.measure()
+                        loop.set_exit_condition(ValueAtMostConstraint(m_, val))
                 elif path == "sdk-array-index":
                     # the value as a CONSTANT INDEX of an array entry (materialised by a `set` like any other constant)
                     arr = conn.new_array(2, init_values=[0, 1])
@@ -170,6 +183,10 @@ def run(prop: str, tier: str) -> int:
                     continue
                 if path == "text+nv-transpiler" and row["expect"] == "bytes" and v["mn"] in ("jmp", "bez", "bnz", "beq", "bne", "blt", "bge"):
                     continue        # (a lone branch with an in-range target past the end has nothing to be retargeted to: not a control)
+                if path == "sdk-until-bound" and -2**31 <= val + 1 < 2**31:
+                    continue        # ("at most val" is compiled as "less than val + 1": that constant is the operand, and it is in range)
+                if path in ("template-numpy-integer", "sdk-until-bound") and row["expect"] == "bytes":
+                    continue        # (this tree accepts only builtin ints there: no in-range control on this path)
                 got, info = attempt(path, v, cls, val)
                 evals += 1
                 if row["expect"] == "bytes":
